@@ -404,7 +404,13 @@ def run_asgi(app, scope, messages, monitor=True, send_fail_at=None, horizon=2000
             if message.get("type") == "http.response.zerocopysend":
                 res.events.append(_resolve_zerocopy(message))
             else:
-                res.events.append(dict(message))
+                m = dict(message)
+                if "headers" in m and not isinstance(m["headers"], (list, tuple)):
+                    try:
+                        m["headers"] = list(m["headers"])  # any iterable is allowed; a server reads it once
+                    except TypeError:
+                        pass
+                res.events.append(m)
 
         try:
             task = s.run_to_completion(app(scope, receive, send), horizon=horizon)
@@ -512,7 +518,10 @@ def run_asgi_pair(prefix, app, scopes, messages):
             async def send(message):
                 st["n"] += 1
                 results[i].raw_events.append(message)
-                results[i].events.append(_resolve_zerocopy(message) if message.get("type") == "http.response.zerocopysend" else dict(message))
+                m = _resolve_zerocopy(message) if message.get("type") == "http.response.zerocopysend" else dict(message)
+                if "headers" in m and not isinstance(m["headers"], (list, tuple)):
+                    m["headers"] = list(m["headers"])
+                results[i].events.append(m)
                 await s.env.gate(f"s{i}-{st['n']:03d}")
 
             async def job():
